@@ -179,6 +179,12 @@ m('C18', PR, '\tcase "noop":', '\tcase "noop", "":', 'empty probe type accepted'
 m('C18', PR, '\t\tif _, err := h.Write(payload); err != nil {', '\t\tif _, err := h.Write(payload[:len(payload)/2]); err != nil {', 'hash of half the payload')
 m('C18', PM, '!(*qps > 0 && *qps <= 1000) || !(interval >= 1 && interval < math.MaxInt64)', '*qps <= 0 || *qps > 1000 || interval > math.MaxInt64', 'NaN / tiny qps accepted (F18)')
 m('C18', PI, '\tif len(headers[serverTimingKey]) > 0 {\n\t\tserverTiming = headers[serverTimingKey]\n\t} else if len(trailers[serverTimingKey]) > 0 {\n\t\tserverTiming = trailers[serverTimingKey]', '\tif len(trailers[serverTimingKey]) > 0 {\n\t\tserverTiming = trailers[serverTimingKey]\n\t} else if len(headers[serverTimingKey]) > 0 {\n\t\tserverTiming = headers[serverTimingKey]', 'trailer preferred over header')
+m('C18', PI, '\t\t\treturn 0, fmt.Errorf("failed to parse gfe latency: %v", err)', '\t\t\tcontinue', 'a malformed gfet4t7 entry is skipped and the scan continues')
+m('C18', PI, '\t\tdurationText := strings.TrimPrefix(entry, gfeT4T7prefix)', '\t\tdurationText := strings.TrimPrefix(serverTiming[0], gfeT4T7prefix)', 'the number parsed is not the tested entry\'s')
+m('C18', PM, '\tif _, err := proberlib.ParseProbeType(*probeType); err != nil {', '\tif _, err := proberlib.ParseProbeType(*probeType); err != nil && *numRows > 1 {', 'probe type error reported only sometimes')
+m('C18', PM, '\tif matched := instanceDBRegex.MatchString(*database_name); !matched {', '\tif matched := instanceDBRegex.MatchString(*database_name); !matched && *numRows > 1 {', 'failed database-name match reported only sometimes')
+m('C18', PR, '\t\treturn NoopProbe{}, fmt.Errorf("probe_type %q is not a valid probe type", t)', '\t\treturn NoopProbe{}, nil', 'unknown probe types parse as noop without error')
+m('C18', PR, '\t\tif _, err := h.Write(payload); err != nil {\n\t\t\treturn nil, nil, err\n\t\t}', '\t\tif _, err := h.Write(payload); err != nil {\n\t\t\treturn nil, nil, err\n\t\t}\n\t\th.Write(payload)', 'payload written into the hash twice')
 
 # ---------------- C19
 m('C19', CS, '\tnewBytes := append(buffer.Bytes(), bytes...) // prepend', '\tnewBytes := append(bytes, buffer.Bytes()...)', 'checksum appended instead of prepended')
